@@ -37,6 +37,7 @@ type IntegProfile struct {
 	CancelVia     string // "runner" | "scheduler"
 	CancelAfter   bool   // fire remaining Cancels after everything returned
 	LogYield      bool   // log lines emitted inside Cancel are park points
+	Barrier       bool   // C04 at INTEG level: no process completes until every eligible stage has a command in flight
 	Checks        map[string]bool
 }
 
@@ -728,8 +729,12 @@ func (e *integEngine) releasePark(p *Park) {
 	case "ctx-up-enter":
 		st := e.upState[p.Data.(string)]
 		if st != nil && atomic.LoadInt32(st) == 1 {
-			e.limbo(p)
-			return
+			c.Count("released_into_up_while_up_running")
+			if !vsyncActive {
+				// real sync.Once: a waiter blocks on a mutex, which freezes the bubble
+				e.limbo(p)
+				return
+			}
 		}
 		c.Release(p, Action{Kind: "go"})
 	default:
@@ -843,6 +848,92 @@ done:
 	})
 }
 
+// barrier (C04 with the real runner): let every goroutine that is merely waiting to be scheduled
+// proceed, then require that each stage whose dependencies are satisfied has a command in flight
+// before any process is completed. Eligibility is read from the stage statuses; what counts as
+// "in flight" is the simulator's own observation (a parked process of that stage's goroutine).
+func (e *integEngine) barrier() bool {
+	c := e.c
+	start := c.Now()
+	for {
+		// scheduling-only parks are released eagerly, in canonical order
+		for {
+			var p *Park
+			for _, q := range e.eligible() {
+				if q.Kind == "stage-start" || q.Kind == "run-enter" || q.Kind == "ctx-up-enter" || q.Kind == "driver" {
+					p = q
+					break
+				}
+			}
+			if p == nil {
+				break
+			}
+			e.releasePark(p)
+			e.observe()
+		}
+		inflight := map[string]bool{}
+		for _, p := range c.ParkedOf("exec", "exec-dying") {
+			info := p.Data.(*ExecInfo)
+			inflight[e.pl.identity(info.GID)] = true
+		}
+		var missing []string
+		for _, g := range e.w.AllGraphs() {
+			if !e.pipelineStarted(g.Name) {
+				continue
+			}
+			for _, s := range g.Stages {
+				st := e.stages[s.Name]
+				if st == nil || s.Nested != nil || s.Cond != "" {
+					continue
+				}
+				cur := statusName(st.ReadStatus())
+				if cur != MWaiting && cur != "running" {
+					continue
+				}
+				ok := true
+				for _, dn := range s.Deps {
+					d := g.Stage(dn)
+					ds := statusName(e.stages[dn].ReadStatus())
+					if !(ds == MDone || ds == MSkipped || (ds == MError && d.Allow)) {
+						ok = false
+					}
+				}
+				if ok && !inflight[s.Name] {
+					missing = append(missing, s.Name)
+				}
+			}
+		}
+		if len(missing) == 0 {
+			c.Count("c04i_barrier_checks")
+			if len(inflight) >= 2 {
+				c.Count("c04i_barrier_with_overlap")
+			}
+			return true
+		}
+		if e.finished || c.Now()-start > 2*time.Second {
+			var fl []string
+			for k := range inflight {
+				fl = append(fl, k)
+			}
+			sort.Strings(fl)
+			sort.Strings(missing)
+			c.Violate("C04", "eligible-no-command-in-flight", "stage(s) %v have all dependencies satisfied but no command of theirs started within 2s simulated while %v have commands in flight (none was completed meanwhile)", missing, fl)
+			return false
+		}
+		c.Sleep(simTick)
+		e.observe()
+	}
+}
+
+func (e *integEngine) pipelineStarted(name string) bool {
+	for _, d := range e.drivers {
+		if d.Spec.Kind == "pipeline" && d.Spec.Target == name && d.Released && !d.Returned {
+			return true
+		}
+	}
+	return false
+}
+
 func (e *integEngine) fireFault(f *Park) {
 	e.faultsFired++
 	n := 0
@@ -873,6 +964,9 @@ func (e *integEngine) loop() {
 	for c.Steps = 0; ; c.Steps++ {
 		e.observe()
 		if e.finished {
+			break
+		}
+		if prof.Barrier && !e.barrier() {
 			break
 		}
 		faults := c.ParkedOf("fault-cancel")
